@@ -37,6 +37,9 @@ NOT_MODELLED = [
     "type checker, stricter than the evaluator)",
     "tail-recursive loops run 150..450 iterations (30..250 outside the tailrec profile): the extracted evaluator keeps cells in a list "
     "and is quadratic in the number of cells",
+    "not modelled: Src/Eval.v has no tail-call elimination: for a self tail call inside a function with catch clauses whose clause "
+    "itself faults, the evaluator offers the exception to the replaced activations; the implementation (and property C13's loop "
+    "reading) does not; the generator gives no catch clauses to template functions whose recursive call is in tail position",
     "`|>` and tuples are not in Src/Syntax.v: the pretty-printer spells f(a, b, c) as (a, b) : (T, T) |> f(c) (profile pipe); "
     "the evaluator sees the plain call (equivalence incl. evaluation order confirmed on the unchanged tree)",
 ]
